@@ -125,6 +125,16 @@ CLAIMED["C11"] = dict(
          "closes the loop within the heat-capacity discretisation bound.",
     note="Trusted: cp table parsed from the library file. Known finding: sequential mode with (Q, T_ret) consumers.",
     ref="DESIGN.md 4/C11")
+CLAIMED["C12"] = dict(
+    technique="history-based property testing: generated operation lists on one net object with snapshot / repeat / fresh-net oracles",
+    text="Exploration: generated lists of 3-8 operations (pipeflow in varying modes, engines, friction models, damping, failing settings, "
+         "matrix-update option; edit-run-undo of parameters; set_user_pf_options; hydraulics followed by mode='heat' from the stored solution) "
+         "are executed on one net object. After every calculation a deep snapshot of all element tables (values, dtypes, index), fluid, "
+         "standard types and user options must be unchanged, an immediate repeat must be bit-identical and the result must be bit-identical "
+         "to the same call on a freshly built net carrying the current parameters.",
+    note="Trusted: net.converged and user_pf_options['hyd_flag'] are bookkeeping. reuse_internal_data across calls is covered by C07; "
+         "bidirectional + automatic damping (known C05 finding) is not generated.",
+    ref="DESIGN.md 4/C12")
 NOT_YET = {}
 
 def main():
